@@ -682,7 +682,7 @@ pub fn run_batch(def: &CheckDef, tier: Tier, seed: u64) -> BatchResult {
     for id in 0..w {
         kids.insert(id, spawn_worker(&exe, def, tier, seed, total, w, id, 0, &out, &tx));
     }
-    let silent_limit = Duration::from_secs(std::env::var("VERIF_WATCHDOG_S").ok().and_then(|s| s.parse().ok()).unwrap_or(240));
+    let silent_limit = Duration::from_secs(std::env::var("VERIF_WATCHDOG_S").ok().and_then(|s| s.parse().ok()).unwrap_or(120));
     let mut crash_viols: Vec<J> = Vec::new();
     let mut harness_error: Option<String> = None;
     let mut live = w;
